@@ -170,8 +170,12 @@ func (vc *VC) regChan(t types.Type) (cnt, val string) {
 }
 
 func (f *Frame) chanComps(t types.Type) []string {
-	c, v := f.vc.regChan(t)
-	return []string{c, v}
+	vc := f.vc
+	vc.regComp("Own_SendCnt", "Int")
+	vc.regComp("Own_SendChan", "(Array Int Int)")
+	vcomp := ownSendValComp(t)
+	vc.regComp(vcomp, "(Array Int "+vc.sortOf(t.Underlying().(*types.Chan).Elem())+")")
+	return []string{"Own_SendCnt", "Own_SendChan", vcomp}
 }
 
 func (f *Frame) chanInit(t types.Type, r string) {
@@ -187,10 +191,22 @@ func (f *Frame) execSend(ch, x ssa.Value, pos token.Pos, cond string) {
 	if cond == "true" {
 		f.safe("send", pos, "send on "+ch.Name(), not(sel(vc.get(f.cur, "ChanClosed"), c.T)))
 	}
-	cs, vs := vc.get(f.cur, cnt), vc.get(f.cur, val)
-	n := sel(cs, c.T)
-	vc.set(f.cur, val, ite(cond, store(vs, c.T, store(sel(vs, c.T), n, v.T)), vs))
-	vc.set(f.cur, cnt, ite(cond, store(cs, c.T, "(+ "+n+" 1)"), cs))
+	_, _ = cnt, val
+	// per-activation ghost: the sends performed by this function's own instructions, in order
+	vc.regComp("Own_SendCnt", "Int")
+	vc.regComp("Own_SendChan", "(Array Int Int)")
+	vcomp := ownSendValComp(ch.Type())
+	vc.regComp(vcomp, "(Array Int "+v.S+")")
+	n := vc.get(f.cur, "Own_SendCnt")
+	oc, ov := vc.get(f.cur, "Own_SendChan"), vc.get(f.cur, vcomp)
+	vc.set(f.cur, "Own_SendChan", ite(cond, store(oc, n, c.T), oc))
+	vc.set(f.cur, vcomp, ite(cond, store(ov, n, v.T), ov))
+	vc.set(f.cur, "Own_SendCnt", ite(cond, "(+ "+n+" 1)", n))
+}
+
+func ownSendValComp(chanT types.Type) string {
+	ct := chanT.Underlying().(*types.Chan)
+	return "Own_SendVal_" + typeKey(ct.Elem())
 }
 
 func (f *Frame) execRecv(x *ssa.UnOp) {
@@ -319,7 +335,7 @@ func (f *Frame) bytesOf(v string, n int) []string {
 
 func (f *Frame) byteAt(s Val, i int) string {
 	comp := f.vc.regMem(types.Typ[types.Uint8])
-	return sel(sel(f.vc.get(f.cur, comp), "(s-ref "+s.T+")"), fmt.Sprintf("(+ (s-off %s) %d)", s.T, i))
+	return sel(sel(f.vc.get(f.cur, comp), "(s-ref "+s.T+")"), fmt.Sprintf("(sidx (s-off %s) %d)", s.T, i))
 }
 
 func (f *Frame) libCall(name string, fn *ssa.Function, c *ssa.CallCommon, args []Val, pos token.Pos) ([]Val, bool) {
